@@ -47,13 +47,14 @@ def real(x):
 
 def arg_dtype(fn, dtype):
     """what routine `fn` may be handed for a drawn dtype (rel_common.admissible): findwalks is
-    documented for binary networks and returns walk COUNTS (structural: float32 allowed, exact
-    below 2^24), the spectral measures accept "binary/weighted" networks (bool allowed for a 0/1
-    matrix); MFPT, diffusion efficiency, PageRank and the spectral measures return real values ->
-    no float32; none copies its argument to float before multiplying it -> no unsigned type"""
+    documented for binary networks and returns walk COUNTS (bool allowed; structural: float32
+    allowed, exact below 2^24).  MFPT, diffusion efficiency, PageRank and the two spectral
+    measures return real values -> no float32, and no bool either for the spectral ones: scipy's
+    eigh computes a boolean matrix in SINGLE precision, i.e. bool is float32 in disguise there and
+    1e-6 noise on a real-valued output is legitimate.  None copies its argument to float before
+    multiplying it -> no unsigned type."""
     fn = fn.split(":")[0]
-    return rc.admissible(dtype, binary=fn in ("findwalks", "eigenvector_centrality_und", "subgraph_centrality"),
-                         structural=fn == "findwalks")
+    return rc.admissible(dtype, binary=fn == "findwalks", structural=fn == "findwalks")
 
 
 def exec_job(job):
@@ -389,8 +390,8 @@ def run(ctx):
                 "self-loops).  Spectral measures: every graph on 1..4 nodes (0/1 and one random {1,2} weighting), "
                 "%s graphs on 5 nodes, the symmetric list incl. disjoint copies, random sparse graphs n in 6..9.  "
                 "Graph supports are TLC-enumerated (spec/GenGraphs.tla).  A sample of every family again, and most random "
-                "inputs, as another argument dtype (findwalks: bool/int32/int64/float32; the others int32/int64, bool "
-                "for 0/1 spectral inputs) and memory layout (Fortran, transposed, window, strided); structured supports "
+                "inputs, as another argument dtype (findwalks: bool/int32/int64/float32; the others int32/int64) "
+                "and memory layout (Fortran, transposed, window, strided); structured supports "
                 "(paths, cycles, stars, complete, bipartite, caterpillars, rings of cliques, equal/unequal components) "
                 "for all three groups; falff non-uniform / explicit uniform / concentrated, as float or int array; all "
                 "choices drawn from the seeded RNG.  non-trivial = distinct (routine, input) "
